@@ -212,25 +212,31 @@ def feature_consistency_ob(fname, und, tag):
 
         def run(c):
             d, f = bound_feature(fname, und)
-            return f.get(SInt(I)), f.get(None)
+            # in every order of evaluation: step, all steps, the same step again, all steps again
+            a = f.get(SInt(I))
+            b = f.get(None)
+            a2 = f.get(SInt(I))
+            b2 = f.get(None)
+            return a, b, a2, b2
         paths = explore(run, hyps, max_paths=16)
         n = tm.var('n', 'I')
         rng = [tm.le(tm.IZERO, n), tm.lt(n, N)]
         nvc = 0
-        sample = {'claim': 'get(i)[n,0,0] == get(None)[n,i,0]', 'feature': tag}
+        sample = {'claim': 'get(i)[n,0,0] == get(None)[n,i,0], whichever is evaluated first (and again after the other)', 'feature': tag}
         for p in paths:
             if p.outcome() != 'returns':
                 return Verdict('unknown', 'engine', time.time() - t0, 'path %s: %s %s' % (p.outcome(), p.exception, p.traceback[-500:]), sample=sample)
-            a, b = p.result
-            lhs, rhs = a.at((n, tm.IZERO, tm.IZERO)), b.at((n, I, tm.IZERO))
-            nvc += 1
-            r = fc.prove_eq(p.facts(hyps) + rng, lhs, rhs, timeout_ms=20000)
-            sample.update(step=tm.show(lhs)[:200], batch=tm.show(rhs)[:200], status=r.status)
-            if r.status != 'unsat':
-                rp = _replay_feature(fname, und)
-                return Verdict('refuted' if (r.status == 'sat' and rp.get('confirmed')) else 'unknown', r.backend, time.time() - t0,
-                               'get(i) = %s but get(None)[:, i] = %s' % (tm.show(lhs)[:200], tm.show(rhs)[:200]), witness={'step': tm.show(lhs)[:300], 'batch': tm.show(rhs)[:300]},
-                               sample=sample, replay=rp)
+            a, b, a2, b2 = p.result
+            rhs = b.at((n, I, tm.IZERO))
+            for (what, lhs) in (('get(i)', a.at((n, tm.IZERO, tm.IZERO))), ('get(i) evaluated after get(None)', a2.at((n, tm.IZERO, tm.IZERO))), ('get(None)[:, i] evaluated a second time', b2.at((n, I, tm.IZERO)))):
+                nvc += 1
+                r = fc.prove_eq(p.facts(hyps) + rng, lhs, rhs, timeout_ms=20000)
+                sample.update(step=tm.show(lhs)[:200], batch=tm.show(rhs)[:200], status=r.status)
+                if r.status != 'unsat':
+                    rp = _replay_feature(fname, und)
+                    return Verdict('refuted' if (r.status == 'sat' and rp.get('confirmed')) else 'unknown', r.backend, time.time() - t0,
+                                   '%s = %s but get(None)[:, i] = %s' % (what, tm.show(lhs)[:200], tm.show(rhs)[:200]), witness={'step': tm.show(lhs)[:300], 'batch': tm.show(rhs)[:300], 'order': what},
+                                   sample=sample, replay=rp)
         return Verdict('proved', 'z3', time.time() - t0, '%d VCs' % nvc, sample=sample)
     return Obligation('HS/feature/%s/step==batch' % tag, 'post', 'pfhedge.features.features', check, ['C03'],
                       clause='feature %s evaluated at step i equals column i of the all-steps evaluation, for every i' % tag)
@@ -599,6 +605,8 @@ def _loop_spec(H, on_preserve=None, extra_inv=None, extra_lemmas=None):
     def inv(state, state0):
         outs, i = state['outputs'], lift(state['time_step'])
         P = state['self'].get_buffer('prev_output')
+        if state is state0:
+            ctx().notes.append(('entry', P))        # loop entry: the ghost footprint of prev_output must start empty
         n, h = tm.fresh('in', 'I'), tm.fresh('ih', 'I')
         rows = [('len(outputs) == time_step', tm.eq(cutloops.list_len(outs), i))]
         prev = tm.ite(tm.eq(i, tm.IZERO), tm.ZERO, elem(outs, n, tm.sub(i, tm.IONE), h)) if isinstance(outs, cutloops.SymList) else tm.ZERO
@@ -650,6 +658,11 @@ def hedge_loop_ob(model_kind, H, aspects=('reads', 'last', 'shape', 'prev'), pro
             else:
                 hedger, feats = mk_hedger(model_kind, d, H, feats)
             hs = mk_hedge_list(d, H)
+            # arbitrary call history: the hedger has been evaluated before on a batch of the same size, so an arbitrary
+            # (N, 1, H) tensor is sitting in its prev_output buffer; nothing of it may survive into this evaluation
+            import torch
+            from pfv.torchlib.tensor import Tensor
+            hedger.register_buffer('prev_output', Tensor.input('STALE', (N, 1, H), torch.float64, origin='fresh'), persistent=False)
             return cut(hedger, d, hedge=hs if H >= 2 else None), hedger
         try:
             paths = explore(run, hyps, max_paths=32)
@@ -674,6 +687,10 @@ def hedge_loop_ob(model_kind, H, aspects=('reads', 'last', 'shape', 'prev'), pro
                     b = bound_buf
                 elif nm_ == 'hvS':
                     b = bound_S
+                elif nm_ == 'STALE':
+                    # state left behind by an earlier evaluation (it may encode any market data, including later columns)
+                    out.append(('[reads] %s: depends on state left in prev_output by an EARLIER evaluation' % where, 'refuted', tm.show(acc)))
+                    continue
                 else:
                     continue
                 sample['accesses'] += 1
@@ -689,6 +706,11 @@ def hedge_loop_ob(model_kind, H, aspects=('reads', 'last', 'shape', 'prev'), pro
                     r = smt.prove(so['hyps'], so['goal'], timeout_ms=20000)
                     rows.append(('[inv] %s' % so['name'], st(r), ''))
             facts = p.facts(hyps)
+            for ent in [x for x in p.ctx.notes if isinstance(x, tuple) and x and x[0] == 'entry'][:1]:
+                P0 = ent[1]
+                if len(P0._shape) == 3:
+                    # ghost footprint at loop entry: prev_output carries no market data and nothing from an earlier evaluation
+                    rows += footprint(P0.at((n, tm.IZERO, h)), facts + rng, tm.const(-1, 'I'), tm.const(-1, 'I'), 'prev_output at loop entry')
             if p.aborted is not None and p.aborted.kind == 'loop-cut':
                 seen_iter = True
                 notes = [x for x in p.ctx.notes if isinstance(x, tuple) and x and x[0] == 'iter']
@@ -1065,6 +1087,8 @@ def prev_hedge_flow_ob(H, Tc):
                 L = ['log_moneyness', 'time_to_maturity', 'prev_hedge']
                 hg = pnn.Hedger(UserModel.make(H, record=rec), L)
                 kw = {'hedge': mk_hedge_list(d, H)} if H >= 2 else {}
+                hg.compute_hedge(d, **kw)          # an earlier evaluation on the same hedger: nothing of it may be seen below
+                del rec[:]
                 out = hg.compute_hedge(d, **kw)
                 return out, list(rec)
             paths = explore(run, hyps, max_paths=8)
@@ -1113,6 +1137,8 @@ for H in (1, 2, 3):
         def forward(self, x):
             seen.append(x.clone()); return x[..., :1].repeat(1, 1, H) * 0.5 + x[..., -H:] * 0.25 + 0.1
     hedger = pnn.Hedger(M(), ["log_moneyness", "time_to_maturity", "prev_hedge"])
+    hedger.compute_hedge(d, hedge=[und] + others)       # an earlier evaluation on the same hedger
+    del seen[:]
     out = hedger.compute_hedge(d, hedge=[und] + others)
     for k, x in enumerate(seen):
         if tuple(x.shape) != (5, 1, 2 + H): bad.append((H, k, "shape", tuple(x.shape))); continue
